@@ -244,7 +244,7 @@ def import_all(api, retained_types, retained_routes, tag):
 KINDS = ['field', 'list', 'map', 'nullable', 'nested', 'alias', 'alias_chain', 'alias_list', 'parent', 'subtypes_down', 'subtypes_up', 'union_tag', 'union_tag_list',
          'union_parent', 'default_tag', 'doc_type', 'doc_field', 'fielddoc_type', 'tagdoc_type', 'doc_route', 'routedoc_type', 'routedoc_route', 'routedoc_field', 'result', 'error',
          'route_alias', 'route_list', 'nsdoc_type', 'patch', 'version2', 'aliasdoc_type', 'deep_doc',
-         'doc_field_alias', 'routedoc_field_alias']
+         'doc_field_alias', 'routedoc_field_alias', 'parent_fielddoc', 'grandparent_fielddoc']
 SAME_NS_ONLY = {'subtypes_down', 'subtypes_up', 'patch'}
 
 
@@ -282,6 +282,14 @@ def gadget(kind, s, cross):
         home.append(Alias('Al' + s, M(N(T('Target'))), None, ()))
         start = mkunion('Start' + s, tags=[mktag('v'), mktag('f', R(None, 'Al' + s))])
     elif kind == 'parent':
+        start = mkstruct('Start' + s, parent=T('Target'), fields=[mkfield('f', I32)])
+    elif kind == 'parent_fielddoc':
+        # the parent's own field doc names a type by its local name: it must be read in the parent's namespace
+        target = mkstruct('Target' + s, fields=[mkfield('deep', I32, doc='Counts :type:`Deep%s` and :field:`Deep%s.c`.' % (s, s))])
+        start = mkstruct('Start' + s, parent=T('Target'), fields=[mkfield('f', I32)])
+    elif kind == 'grandparent_fielddoc':
+        tdefs.append(mkstruct('Top' + s, fields=[mkfield('t', I32, doc='See :type:`Deep%s`.' % s)], doc='Top of :type:`Deep%s`.' % s))
+        target = mkstruct('Target' + s, parent=R(None, 'Top' + s), fields=[mkfield('deep', I32)])
         start = mkstruct('Start' + s, parent=T('Target'), fields=[mkfield('f', I32)])
     elif kind == 'subtypes_down':
         start = mkstruct('Start' + s, fields=[mkfield('f', I32)], subtypes=(False, (('tt', R(None, 'Target' + s)),)))
